@@ -296,6 +296,71 @@ fn run_cancelall(kind: &str, seed: u64, replay: Option<Vec<u8>>) -> (sched::Outc
     (outcome, viol, cfgkey, cfg)
 }
 
+/// C07 / C10 (`sub=reuse`): a stream id handed out again WHILE its previous owner's removal is still finishing.
+/// `MAX_STREAMS = 2`: a permanent listener holds one id, listener A holds the other; one thread drops A, another creates a
+/// new listener meanwhile (it can only get A's id), polls it; a producer sends.  Oracle: the new listener -- which nobody told to
+/// end -- never answers end-of-stream.  (A `create` that finds no vacant id yet panics `MAX_STREAMS ... exhausted`, as documented:
+/// such a run is inconclusive.)
+fn run_reuse(kind: &str, seed: u64, replay: Option<Vec<u8>>) -> (sched::Outcome, Vec<(String, String)>, String, String) {
+    let mut rng = Rng::new(seed ^ 0x4E05);
+    let ch = make(kind, 2);
+    let (p_stream, _pid) = ch.create();
+    let (a_stream, a_sid) = ch.create();
+    let p_stream = Arc::new(Mutex::new(Some(std::mem::ManuallyDrop::new(p_stream))));
+    let a_stream = Arc::new(Mutex::new(Some(std::mem::ManuallyDrop::new(a_stream))));
+    let ended_uncancelled: Arc<Mutex<Vec<String>>> = Arc::new(Mutex::new(vec![]));
+    let nsend = rng.below(3) as usize;
+    let mut bodies: Vec<Body> = vec![];
+    {   // the remover
+        let a_stream = a_stream.clone();
+        bodies.push(Box::new(move |ctx| {
+            for _ in 0..ctx.rand(3) { ctx.yield_point("h.delay", 0); }
+            let mut s = a_stream.lock().unwrap().take().unwrap();
+            ctx.call(20, &format!("drop {a_sid}"));
+            unsafe { std::mem::ManuallyDrop::drop(&mut s); }
+            ctx.ret("unit");
+        }));
+    }
+    {   // the creator + its listener's task
+        let (ch, bad) = (ch.clone(), ended_uncancelled.clone());
+        bodies.push(Box::new(move |ctx| {
+            for _ in 0..(2 + ctx.rand(8)) { ctx.yield_point("h.delay", 0); }
+            ctx.call(21, "create");
+            let (mut s, sid) = ch.create();
+            ctx.ret(&format!("id {sid}"));
+            let flag = Arc::new(FlagWaker(std::sync::atomic::AtomicBool::new(false)));
+            for k in 0..4 {
+                ctx.call(21, &format!("poll {sid}"));
+                let w: Waker = flag.clone().into();
+                match s.poll_w(&w) {
+                    Some(Some(v)) => { ctx.ret(&format!("item {v}")); }
+                    Some(None) => { ctx.ret("end"); bad.lock().unwrap().push(format!("the listener created with (re-used) stream id {sid} answered end-of-stream at its poll #{k} although nobody told it to end")); break }
+                    None => { ctx.ret("pending"); ctx.yield_point("h.delay", 0); }
+                }
+            }
+            std::mem::forget(s);
+        }));
+    }
+    {   // a producer
+        let ch = ch.clone();
+        bodies.push(Box::new(move |ctx| {
+            for i in 0..nsend { ctx.call(1, &format!("send {}", 1000 + i)); let ok = ch.send(1000 + i as u32); ctx.ret(if ok { "unit" } else { "full" }); }
+        }));
+    }
+    let mut cfg = Config::new(seed, filter_cancel);
+    cfg.replay = replay;
+    let outcome = sched::run(cfg, bodies);
+    let mut viol = vec![];
+    let mut inconclusive = false;
+    for (i, p) in outcome.panics.iter().enumerate() { if let Some(m) = p {
+        if m.contains("which just got exhausted") { inconclusive = true } else { viol.push(("panic".into(), format!("thread {i} panicked: {}", &m[..m.len().min(200)]))); } } }
+    if outcome.verdict != Verdict::Completed && !inconclusive { viol.push(("no_progress".into(), format!("{:?}", outcome.verdict))); }
+    for d in ended_uncancelled.lock().unwrap().iter() { viol.push(("uncancelled_stream_ended".into(), format!("Multi {kind}: {d} (the previous owner of that id was being removed meanwhile)"))); }
+    let _ = p_stream;
+    std::mem::forget(ch);
+    (outcome, viol, format!("{kind}/reuse/{}", if inconclusive { "inconclusive" } else { "s" }), format!("cfg model=none kind={kind}"))
+}
+
 fn run_one(kind: &str, sub: &str, seed: u64, replay: Option<Vec<u8>>) -> (sched::Outcome, Vec<(String, String)>, String, String) {
     let mut rng = Rng::new(seed ^ 0xBEEF);
     let mx = [1usize, 2, 4][rng.below(3) as usize];
@@ -515,20 +580,22 @@ fn main() {
     for i in 0..runs {
         let seed = if a.kv.contains_key("seedx") { a.num("seedx", 0) } else { seed0.wrapping_mul(1_000_003).wrapping_add(i) };
         mark_run(seed);
-        let (o, viol, cfgkey, cfg) = if sub == "cancelall" { run_cancelall(&kind, seed, single.clone()) } else { run_one(&kind, &sub, seed, single.clone()) };
+        let (o, viol, cfgkey, cfg) = if sub == "cancelall" { run_cancelall(&kind, seed, single.clone()) } else if sub == "reuse" { run_reuse(&kind, seed, single.clone()) } else { run_one(&kind, &sub, seed, single.clone()) };
         let nontrivial = match sub.as_str() {
             "hist" => o.trace.iter().filter(|l| l.contains(" drop ")).count() > 0 && o.trace.iter().filter(|l| l.contains(" create")).count() > 1,
             "churn" => { // a bookkeeping step of the churn thread between two fan-out steps of a send
                 let mut in_fan = false; let mut hit = false;
                 for l in &o.trace { if l.contains(" mc.fan.read ") || l.contains(" sm.running ") { in_fan = true } else if l.starts_with("ret ") && l.ends_with(" unit") && !l.starts_with("ret 20") { in_fan = false } else if in_fan && l.starts_with("pt 20 ") { hit = true } }
                 hit }
+            "reuse" => { let c = o.trace.iter().position(|l| l == "call 21 create"); let d = o.trace.iter().position(|l| l.starts_with("call 20 drop")); let dr = o.trace.iter().position(|l| l == "ret 20 unit");
+                         matches!((c, d, dr), (Some(c), Some(d), Some(dr)) if d < c && c < dr) }
             "cancelall" => { let c = o.trace.iter().position(|l| l == "call 21 cancelall"); let d = o.trace.iter().position(|l| l.starts_with("call 20 drop"));
                              let cr = o.trace.iter().position(|l| l == "ret 21 unit"); let dr = o.trace.iter().position(|l| l == "ret 20 unit");
                              matches!((c, cr, d, dr), (Some(c), Some(cr), Some(d), Some(dr)) if d <= cr && dr >= c) }
             _ => o.trace.iter().filter(|l| l.contains(" mc.fan.read ")).count() > 1,
         };
         rep.add_run(&o.trace, nontrivial, &cfgkey, &format!("{:?}", o.verdict));
-        if sub != "cancelall" { out.write_run(&format!("{cfg} seed={seed} run={i}"), &o.trace); }
+        if sub != "cancelall" && sub != "reuse" { out.write_run(&format!("{cfg} seed={seed} run={i}"), &o.trace); }
         for (k, d) in viol {
             let header = vec![format!("cmd multi kind={kind} sub={sub} runs=1 seedx={seed} choices={}", choices_str(&o.choices)), format!("violation {k}: {d}"), cfg.clone()];
             let path = write_replay(&replay_dir, &format!("{pid}-multi-{kind}-{sub}-seed{seed}-{k}"), &header, &o.trace);
